@@ -48,6 +48,12 @@ enum Op {
 	StartProc,
 	Process(usize),
 	Obs(usize),
+	/// the next `n` (user-side) ops are not executed now but by the user's thread WHILE the audio thread is inside
+	/// the next `StartProc` (= `Renderer::on_start_processing`), at this point of it: 0 = the `on_start_processing`
+	/// of an effect on a live sub-track, 1 = of an effect on a live send track, 2 = of a sound on a live sub-track
+	/// (all three: before the main track picks up its new sounds and before the clocks are picked up), 3 = of an
+	/// effect on the main track (after the main track picked up its sounds, before the clocks are picked up)
+	Mid { point: u8, n: usize },
 }
 #[derive(Clone, Debug)]
 struct Scenario {
@@ -121,7 +127,75 @@ fn op_term(o: &Op, dy: bool) -> String {
 		Op::StartProc => "RStartProc".into(),
 		Op::Process(n) => format!("RProcess {}", n),
 		Op::Obs(c) => format!("RObs {}", c),
+		Op::Mid { .. } => unreachable!("linearise removes Mid"),
 	}
+}
+/// The sequential history that a history with mid-callback blocks must be indistinguishable from (this is what the
+/// model is given; Pickup.v, theorem `pickup_clock_before_waiter`): a block that ran inside an `on_start_processing` before the
+/// clocks were picked up acts as if it had run just before that `on_start_processing` — except that what it gave
+/// to a track that had already picked up its new sounds in this callback (point 3: the main track) is picked up by
+/// the next callback, i.e. acts as if played right after this callback's frames.
+fn linearise(ops: &[Op]) -> Vec<Op> {
+	let mut out = vec![];
+	let mut deferred: Vec<Op> = vec![];
+	let mut state = 0; // 1: deferred waits, their on_start_processing not yet seen; 2: seen, its Process not yet
+	let mut i = 0;
+	while i < ops.len() {
+		match ops[i] {
+			Op::Mid { point, n } => {
+				for j in i + 1..=i + n {
+					if point == 3 && matches!(ops[j], Op::Wait(..)) {
+						deferred.push(ops[j]);
+					} else {
+						out.push(ops[j]);
+					}
+				}
+				i += n;
+				if !deferred.is_empty() {
+					state = 1;
+				}
+			}
+			Op::StartProc => {
+				if state == 2 {
+					out.append(&mut deferred);
+					state = 0;
+				}
+				out.push(Op::StartProc);
+				if state == 1 {
+					state = 2;
+				}
+			}
+			Op::Process(n) => {
+				out.push(Op::Process(n));
+				if state == 2 {
+					out.append(&mut deferred);
+					state = 0;
+				}
+			}
+			o => out.push(o),
+		}
+		i += 1;
+	}
+	out.append(&mut deferred);
+	out
+}
+/// the history as it was run, mid-callback blocks included (for failure reports)
+fn scenario_text(sc: &Scenario) -> String {
+	if !sc.ops.iter().any(|o| matches!(o, Op::Mid { .. })) {
+		return scenario_term(sc, false);
+	}
+	let mut parts = vec![];
+	for o in &sc.ops {
+		match o {
+			Op::Mid { point, n } => parts.push(format!(
+				"<the next {} ops run on the user's thread INSIDE the following RStartProc, from the on_start_processing of {}>",
+				n,
+				["an effect on a live sub-track", "an effect on a live send track", "a sound on a live sub-track", "an effect on the main track"][*point as usize]
+			)),
+			o => parts.push(op_term(o, sc.dyadic)),
+		}
+	}
+	format!("CSys64 {} {} [{}]  (sequential equivalent given to the model: {})", sc.sr, sc.buf, parts.join("; "), scenario_term(sc, false))
 }
 fn scenario_term(sc: &Scenario, q: bool) -> String {
 	format!(
@@ -129,7 +203,7 @@ fn scenario_term(sc: &Scenario, q: bool) -> String {
 		if q { "CSysQ" } else { "CSys64" },
 		sc.sr,
 		sc.buf,
-		sc.ops.iter().map(|o| op_term(o, sc.dyadic)).collect::<Vec<_>>().join("; ")
+		linearise(&sc.ops).iter().map(|o| op_term(o, sc.dyadic)).collect::<Vec<_>>().join("; ")
 	)
 }
 
@@ -183,93 +257,82 @@ struct SoundW {
 	bit: u32, // for kind 0: left channel carries 2^-(3+bit)
 }
 
-/// Runs a scenario on the real code.  Appends to `shared` as it goes so that a watchdog can
-/// salvage what was observed before an audio callback that never returns.
-fn execute(sc: &Scenario, shared: &Arc<Mutex<Trace>>) {
-	let mut mgr = simple_manager(sc.sr, sc.buf);
-	let mut clocks: Vec<Option<ClockHandle>> = vec![];
-	let mut ids = vec![];
-	let mut sounds: Vec<SoundW> = vec![];
-	let mut out: Vec<(f32, f32)> = vec![];
-	let mut nbits = 0u32;
-	let total_frames: usize = sc.ops.iter().map(|o| if let Op::Process(n) = o { *n } else { 0 }).sum::<usize>() + 64;
-	for (oi, o) in sc.ops.iter().enumerate() {
+/// the user's side of a history: the manager and every handle it got
+struct Game {
+	mgr: crate::inject::SMgr,
+	sr: u32,
+	total_frames: usize,
+	clocks: Vec<Option<ClockHandle>>,
+	ids: Vec<kira::clock::ClockId>,
+	sounds: Vec<SoundW>,
+	nbits: u32,
+	/// sounds given to the main track after it had picked up its new sounds in this callback: they exist for the
+	/// audio thread from the next callback on
+	picked_up_next_callback: Vec<usize>,
+}
+impl Game {
+	/// one user-side op; `now` = device frames produced so far
+	fn apply(&mut self, oi: usize, o: &Op, now: usize, shared: &Arc<Mutex<Trace>>) {
 		match o {
 			Op::AddClock(s) => {
-				let h = mgr.add_clock(s.real()).unwrap();
-				ids.push(h.id());
-				clocks.push(Some(h));
+				let h = self.mgr.lock().unwrap().add_clock(s.real()).unwrap();
+				self.ids.push(h.id());
+				self.clocks.push(Some(h));
 			}
 			Op::Start(c) => {
-				if let Some(h) = clocks[*c].as_mut() {
+				if let Some(h) = self.clocks[*c].as_mut() {
 					h.start()
 				}
 			}
 			Op::Pause(c) => {
-				if let Some(h) = clocks[*c].as_mut() {
+				if let Some(h) = self.clocks[*c].as_mut() {
 					h.pause()
 				}
 			}
 			Op::Stop(c) => {
-				if let Some(h) = clocks[*c].as_mut() {
+				if let Some(h) = self.clocks[*c].as_mut() {
 					h.stop()
 				}
 			}
 			Op::SetSpeed { c, v, start, dur_ns, easing } => {
-				let st = real_start(start, &clocks, &ids);
-				if let Some(h) = clocks[*c].as_mut() {
+				let st = real_start(start, &self.clocks, &self.ids);
+				if let Some(h) = self.clocks[*c].as_mut() {
 					h.set_speed(v.real(), Tween { start_time: st, duration: Duration::from_nanos(*dur_ns), easing: *easing });
 				}
 			}
 			Op::Drop(c) => {
-				clocks[*c] = None;
+				self.clocks[*c] = None;
 			}
 			Op::Wait(kind, start) => {
-				let st = real_start(start, &clocks, &ids);
+				let st = real_start(start, &self.clocks, &self.ids);
 				let (frame, bit) = if *kind == 0 {
-					let b = nbits;
-					nbits += 1;
+					let b = self.nbits;
+					self.nbits += 1;
 					(Frame::new(1.0 / (8u32 << b) as f32, 0.0), b)
 				} else {
 					(Frame::new(0.0, 0.5), 0)
 				};
 				let mut data = StaticSoundData {
-					sample_rate: sc.sr,
-					frames: Arc::from(vec![frame; total_frames]),
+					sample_rate: self.sr,
+					frames: Arc::from(vec![frame; self.total_frames]),
 					settings: StaticSoundSettings::default(),
 					slice: None,
 				};
 				if *kind == 0 {
 					data = data.start_time(st);
 				}
-				let mut handle = mgr.play(data).unwrap();
+				let mut handle = self.mgr.lock().unwrap().play(data).unwrap();
 				if *kind == 1 {
 					handle.set_volume(Decibels::SILENCE, Tween { start_time: st, duration: Duration::ZERO, easing: Easing::Linear });
 				} else if *kind == 2 {
 					handle.pause(ZERO_TWEEN);
 					handle.resume_at(st, ZERO_TWEEN);
 				}
-				sounds.push(SoundW { kind: *kind, start: *start, issued_at: out.len(), handle, bit });
-			}
-			Op::StartProc => {
-				mgr.backend_mut().r().on_start_processing();
-			}
-			Op::Process(n) => {
-				let mut b = vec![f32::from_bits(0x7FC0_1234); n * 2];
-				{
-					let mut t = shared.lock().unwrap();
-					let mut k = 0;
-					while k < *n {
-						t.chunk_starts.push(out.len() + k);
-						k += sc.buf;
-					}
-				}
-				mgr.backend_mut().r().process(&mut b, 2);
-				out.extend(b.chunks(2).map(|c| (c[0], c[1])));
+				self.sounds.push(SoundW { kind: *kind, start: *start, issued_at: now, handle, bit });
 			}
 			Op::Obs(c) => {
 				let mut t = shared.lock().unwrap();
-				match clocks[*c].as_ref() {
+				match self.clocks[*c].as_ref() {
 					Some(h) => {
 						let tm = h.time();
 						let v = View { ticking: h.ticking(), ticks: tm.ticks, fr: tm.fraction };
@@ -284,13 +347,94 @@ fn execute(sc: &Scenario, shared: &Arc<Mutex<Trace>>) {
 					}
 				}
 			}
+			Op::StartProc | Op::Process(_) | Op::Mid { .. } => unreachable!("audio-side op given to the user's side"),
 		}
 	}
+}
+
+/// Runs a scenario on the real code.  Appends to `shared` as it goes so that a watchdog can
+/// salvage what was observed before an audio callback that never returns.
+fn execute(sc: &Scenario, shared: &Arc<Mutex<Trace>>) {
+	use crate::inject::{shared_manager, Hook, HookFxBuilder, HookSound};
+	use kira::track::{MainTrackBuilder, SendTrackBuilder, TrackBuilder};
+	let has_mid = sc.ops.iter().any(|o| matches!(o, Op::Mid { .. }));
+	let hooks: [Hook; 4] = Default::default();
+	let main = if has_mid { MainTrackBuilder::new().with_effect(HookFxBuilder(hooks[3].clone())) } else { MainTrackBuilder::new() };
+	let (mgr, renderer) = shared_manager(sc.sr, sc.buf, main);
+	// the hook points: live (silent) tracks whose effect / sound gets its `on_start_processing` called in the middle of the renderer's
+	let _hook_tracks = if has_mid {
+		let mut m = mgr.lock().unwrap();
+		let t0 = m.add_sub_track(TrackBuilder::new().with_effect(HookFxBuilder(hooks[0].clone()))).unwrap();
+		let t1 = m.add_send_track(SendTrackBuilder::new().with_effect(HookFxBuilder(hooks[1].clone()))).unwrap();
+		let mut t2 = m.add_sub_track(TrackBuilder::new()).unwrap();
+		t2.play(HookSound(hooks[2].clone())).unwrap();
+		drop(m);
+		// they are picked up before the history begins (nothing else exists yet)
+		renderer.lock().unwrap().as_mut().unwrap().on_start_processing();
+		Some((t0, t1, t2))
+	} else {
+		None
+	};
+	let total_frames: usize = sc.ops.iter().map(|o| if let Op::Process(n) = o { *n } else { 0 }).sum::<usize>() + 64;
+	let game = Arc::new(Mutex::new(Game { mgr, sr: sc.sr, total_frames, clocks: vec![], ids: vec![], sounds: vec![], nbits: 0, picked_up_next_callback: vec![] }));
+	let mut out: Vec<(f32, f32)> = vec![];
+	let mut armed: Option<usize> = None;
+	let mut oi = 0;
+	while oi < sc.ops.len() {
+		match &sc.ops[oi] {
+			Op::Mid { point, n } => {
+				let block: Vec<(usize, Op)> = (oi + 1..=oi + n).map(|j| (j, sc.ops[j])).collect();
+				let (g2, sh2, now, late) = (game.clone(), shared.clone(), out.len(), *point == 3);
+				*hooks[*point as usize].lock().unwrap() = Some(Box::new(move || {
+					let mut g = g2.lock().unwrap();
+					let n0 = g.sounds.len();
+					for (j, o) in &block {
+						g.apply(*j, o, now, &sh2);
+					}
+					if late {
+						let n1 = g.sounds.len();
+						g.picked_up_next_callback.extend(n0..n1);
+					}
+				}));
+				armed = Some(*point as usize);
+				oi += n;
+			}
+			Op::StartProc => {
+				renderer.lock().unwrap().as_mut().unwrap().on_start_processing();
+				if let Some(p) = armed.take() {
+					assert!(hooks[p].lock().unwrap().is_none(), "harness: the mid-callback block did not run");
+				}
+			}
+			Op::Process(n) => {
+				let mut b = vec![f32::from_bits(0x7FC0_1234); n * 2];
+				{
+					let mut t = shared.lock().unwrap();
+					let mut k = 0;
+					while k < *n {
+						t.chunk_starts.push(out.len() + k);
+						k += sc.buf;
+					}
+				}
+				renderer.lock().unwrap().as_mut().unwrap().process(&mut b, 2);
+				out.extend(b.chunks(2).map(|c| (c[0], c[1])));
+				if armed.is_none() {
+					let mut g = game.lock().unwrap();
+					for i in std::mem::take(&mut g.picked_up_next_callback) {
+						g.sounds[i].issued_at = out.len();
+					}
+				}
+			}
+			o => game.lock().unwrap().apply(oi, o, out.len(), shared),
+		}
+		oi += 1;
+	}
+	let game = game.lock().unwrap();
+	let sounds = &game.sounds;
 	// what happened to everything that waited
 	let mut t = shared.lock().unwrap();
 	let starts = t.chunk_starts.clone();
 	let mut analog_seen = false;
-	for w in &sounds {
+	for w in sounds.iter() {
 		let fs = w.handle.state();
 		let (state, frame): (u8, i64) = match w.kind {
 			0 => {
@@ -443,7 +587,7 @@ fn gen_frames(r: &mut Rng, buf: usize) -> usize {
 
 /// a whole history: clocks added at any time, started / paused / stopped / retimed / dropped,
 /// things waiting for clock times, callbacks of arbitrary sizes
-fn gen_scenario(r: &mut Rng, dyadic: bool, events: bool) -> Scenario {
+fn gen_scenario(r: &mut Rng, dyadic: bool, events: bool, mid: bool) -> Scenario {
 	let sr = if dyadic { *r.pick(&[512u32, 1024, 256, 2048]) } else { *r.pick(&[44100u32, 48000, 22050, 1000, 96000]) };
 	let buf = *r.pick(&[1usize, 2, 3, 7, 16, 64, 100, 128, 200]);
 	let mut ops = vec![];
@@ -454,6 +598,7 @@ fn gen_scenario(r: &mut Rng, dyadic: bool, events: bool) -> Scenario {
 	for cb in 0..ncallbacks {
 		// user-side calls before this callback
 		let ncalls = if cb == 0 { r.range(1, 3) } else { r.range(0, 3) };
+		let block_start = ops.len();
 		for _ in 0..ncalls {
 			let live: Vec<usize> = (0..alive.len()).filter(|k| alive[*k]).collect();
 			let choice = if live.is_empty() { 0 } else { r.below(16) };
@@ -541,6 +686,11 @@ fn gen_scenario(r: &mut Rng, dyadic: bool, events: bool) -> Scenario {
 					}
 				}
 			}
+		}
+		if mid && ops.len() > block_start && r.chance(2, 3) {
+			// the user's thread makes these calls while the audio thread is in the middle of on_start_processing
+			let n = ops.len() - block_start;
+			ops.insert(block_start, Op::Mid { point: r.below(4) as u8, n });
 		}
 		ops.push(Op::StartProc);
 		for k in 0..alive.len() {
@@ -717,7 +867,17 @@ fn monitor_history(s: &mut Session, r: &mut Rng) {
 			s.fail(desc.clone(), format!("chunk {k}: after stop() the clock shows {:?}, not (0, 0.0) / not ticking", v), None);
 		}
 	}
-	// events
+	check_events(s, &desc, &t, &views, 0, 0, drop_chunk, nchunks);
+}
+
+/// The event clause evaluated on what the implementation did.  `views[i]` = what the clock's handle showed after
+/// chunk `first + i` (every callback of these histories is one internal buffer followed by an extra
+/// `on_start_processing` that publishes the clock's time); every wait of the trace is on that clock and can have
+/// been picked up by the audio thread from chunk `first + pick` on.  "Reached" is decided here on the two words the
+/// clock published, ticks first, then fraction — not with the library's own ordering of `ClockTime`s.
+fn check_events(s: &mut Session, desc: &str, t: &Trace, views: &[View], first: usize, pick: usize, drop_chunk: Option<usize>, nchunks: usize) {
+	let desc = desc.to_string();
+	let starts = &t.chunk_starts[first.min(t.chunk_starts.len())..];
 	for w in &t.waits {
 		let (tau_t, tau_f) = match w.start {
 			St::Clk { ticks, fr, .. } => (ticks, fr),
@@ -726,7 +886,7 @@ fn monitor_history(s: &mut Session, r: &mut Rng) {
 		let reached = |v: &View| v.ticking && (v.ticks > tau_t || (v.ticks == tau_t && v.fr >= tau_f));
 		// first chunk (within the handle's life) at which the clock is ticking and has reached tau
 		let horizon = drop_chunk.unwrap_or(views.len()).min(views.len());
-		let kstar = (0..horizon).find(|&k| reached(&views[k]));
+		let kstar = (pick.min(horizon)..horizon).find(|&k| reached(&views[k]));
 		let what = match w.kind {
 			0 => "sound start",
 			1 => "tween start",
@@ -740,20 +900,30 @@ fn monitor_history(s: &mut Session, r: &mut Rng) {
 		});
 		match (kstar, w.state) {
 			(Some(k), 1) => {
-				let want = t.chunk_starts[k] as i64;
+				let want = starts[k] as i64;
 				if w.frame != want {
-					let got_chunk = t.chunk_starts.iter().position(|&s| s as i64 == w.frame);
+					let got_chunk = starts.iter().position(|&s| s as i64 == w.frame);
 					let verdict = match got_chunk {
-						Some(g) if g > k => "late",
-						Some(g) if !views.get(g).map(|v| v.ticking).unwrap_or(false) => "began while the clock was paused",
-						Some(_) => "began while the clock was still short of that time at the buffer's end",
-						None => "did not begin at a buffer boundary",
+						Some(g) if g > k => "late".to_string(),
+						Some(g) if !views.get(g).map(|v| v.ticking).unwrap_or(false) => "began while the clock was paused".to_string(),
+						Some(g) => format!("began while the clock was still short of that time at the buffer's end: the clock then showed ({}, {:?})", views[g].ticks, views[g].fr),
+						None => "did not begin at a buffer boundary".to_string(),
 					};
 					s.fail(desc.clone(), format!("{what} scheduled for ({tau_t}, {tau_f:?}): began at device frame {} but the clock reaches that time during the buffer starting at frame {want} ({verdict})", w.frame), None);
 				}
 			}
 			(Some(k), st) => {
-				s.fail(desc.clone(), format!("{what} scheduled for ({tau_t}, {tau_f:?}) never began (state {st}) although the clock reached that time in chunk {k}"), None);
+				s.fail(
+					desc.clone(),
+					format!(
+						"{what} scheduled for ({tau_t}, {tau_f:?}) never began ({}) although the clock, which exists and is ticking, reached that time in chunk {}: it showed ({}, {:?})",
+						if st == 2 { "the sound was cancelled: Stopped".to_string() } else { format!("state {:?}", w.final_state) },
+						first + k,
+						views[k].ticks,
+						views[k].fr
+					),
+					None,
+				);
 			}
 			(None, 1) => {
 				s.fail(desc.clone(), format!("{what} scheduled for ({tau_t}, {tau_f:?}) began at frame {} although the running clock never reached that time", w.frame), None);
@@ -764,11 +934,257 @@ fn monitor_history(s: &mut Session, r: &mut Rng) {
 					s.fail(desc.clone(), format!("{what} waits for a clock that no longer exists but the sound is {:?}, not Stopped", w.final_state), None);
 				}
 				if drop_chunk.is_none() && st == 2 {
-					s.fail(desc.clone(), format!("{what} was cancelled although its clock exists"), None);
+					s.fail(desc.clone(), format!("{what} was cancelled (the sound is Stopped) although its clock exists"), None);
 				}
 			}
 		}
 	}
+}
+
+/// Fixed corpus for the whole-tick edge: speeds / buffers / device rates where a tick is a whole number of buffers
+/// in exact arithmetic but the accumulated binary64 fraction arrives a rounding error short of 1.0 (or not: either
+/// way the rule is the one of `check_events`, on the clock's own two words).  Sounds wait for ticks 1..5, a resume
+/// for tick 3; one internal buffer per callback, no pauses.
+fn boundary_corpus(s: &mut Session) {
+	let configs: [(u32, usize, Spd); 8] = [
+		(48000, 480, Spd { kind: 1, x: 10.0 }),
+		(1000, 100, Spd { kind: 1, x: 1.0 }),
+		(100, 10, Spd { kind: 1, x: 1.0 }),
+		(44100, 441, Spd { kind: 1, x: 20.0 }),
+		(48000, 480, Spd { kind: 1, x: 30.0 }),
+		(1000, 100, Spd { kind: 2, x: 120.0 }),
+		(48000, 160, Spd { kind: 0, x: 0.02 }),
+		(22050, 441, Spd { kind: 1, x: 10.0 }),
+	];
+	for (sr, buf, sp) in configs {
+		let per_buffer = sp.tps() * buf as f64 / sr as f64;
+		let nchunks = ((5.3 / per_buffer).ceil() as usize).min(60);
+		let mut ops = vec![Op::AddClock(sp), Op::Start(0)];
+		for tick in 1..=5u64 {
+			ops.push(Op::Wait(0, St::Clk { clock: 0, ticks: tick, fr: 0.0 }));
+		}
+		ops.push(Op::Wait(2, St::Clk { clock: 0, ticks: 3, fr: 0.0 }));
+		for _ in 0..nchunks {
+			ops.extend([Op::StartProc, Op::Process(buf), Op::StartProc, Op::Obs(0)]);
+		}
+		let sc = Scenario { sr, buf, ops, dyadic: false };
+		let t = run_scenario(&sc, 20000);
+		let desc = scenario_term(&sc, false);
+		s.case("history_boundary_target_f64", desc.clone(), &t.obs64, Some(key_of(&desc)));
+		if !t.complete {
+			s.fail(desc, "history did not complete".into(), None);
+			continue;
+		}
+		let views: Vec<View> = t.views.iter().map(|x| x.2).collect();
+		if views.iter().any(|v| v.fr > 1.0 - 1e-9) {
+			s.count("corpus_clock_a_hair_short_of_a_tick");
+		}
+		check_events(s, &desc, &t, &views, 0, 0, None, nchunks);
+	}
+}
+
+/// Targets on the edge.  A clock with a speed / buffer size / device rate for which nothing is exact (0.1 tick per
+/// buffer and the like: the fraction then sits a rounding error below 1.0 where the exact value is a whole tick) is
+/// run twice through the same history: first alone, to learn the times T_k it shows after each buffer; then with
+/// sounds, a tween and a resume waiting for times chosen ON those values: exactly T_k, one ulp of the fraction
+/// above and below T_k, and the whole tick that T_k is a hair short of.  The event clause is then evaluated on the
+/// two published words (`check_events`): at T_k exactly or just below, the event begins in buffer k (never late);
+/// one ulp above, or at the tick the clock is a hair short of, it must NOT begin in buffer k (never while the clock
+/// is still short of that time at the buffer's end).
+fn monitor_boundary_targets(s: &mut Session, r: &mut Rng, to_model: bool) {
+	// (device rate, internal buffer, speed): ticks per buffer = 1/m for an m that is not a power of two, or arbitrary
+	let (sr, buf, sp) = match r.below(5) {
+		0 => *r.pick(&[
+			(48000u32, 480usize, Spd { kind: 1, x: 10.0 }),
+			(1000, 100, Spd { kind: 1, x: 1.0 }),
+			(100, 10, Spd { kind: 1, x: 1.0 }),
+			(44100, 441, Spd { kind: 1, x: 20.0 }),
+			(48000, 480, Spd { kind: 1, x: 30.0 }),
+			(1000, 100, Spd { kind: 2, x: 120.0 }),
+			(48000, 160, Spd { kind: 0, x: 0.02 }),
+			(22050, 441, Spd { kind: 1, x: 10.0 }),
+		]),
+		1 => {
+			let sr = *r.pick(&[44100u32, 48000, 22050, 1000, 96000]);
+			let buf = *r.pick(&[10usize, 64, 100, 128, 200, 441, 480]);
+			let m = *r.pick(&[3u32, 5, 6, 7, 9, 10, 12, 15, 20]);
+			(sr, buf, Spd { kind: 1, x: sr as f64 / (buf as f64 * m as f64) })
+		}
+		_ => {
+			let sr = *r.pick(&[44100u32, 48000, 22050, 1000, 96000]);
+			let buf = *r.pick(&[10usize, 64, 100, 128, 200, 441, 480]);
+			let per_buffer = 0.04 + r.unit_f64() * 0.6;
+			let tps = per_buffer * sr as f64 / buf as f64;
+			match r.below(3) {
+				0 => (sr, buf, Spd { kind: 0, x: 1.0 / tps }),
+				1 => (sr, buf, Spd { kind: 2, x: tps * 60.0 }),
+				_ => (sr, buf, Spd { kind: 1, x: tps }),
+			}
+		}
+	};
+	let nchunks = r.range(24, 44) as usize;
+	// the history without anything waiting
+	let mut tail = vec![];
+	for _ in 0..nchunks {
+		match r.below(16) {
+			0 => tail.push(Op::Pause(0)),
+			1 | 2 => tail.push(Op::Start(0)),
+			_ => {}
+		}
+		tail.push(Op::StartProc);
+		tail.push(Op::Process(if r.chance(1, 8) { 1 + r.below(buf as u64) as usize } else { buf }));
+		tail.push(Op::StartProc);
+		tail.push(Op::Obs(0));
+	}
+	let head = vec![Op::AddClock(sp), Op::Start(0)];
+	let sc1 = Scenario { sr, buf, ops: head.iter().chain(tail.iter()).copied().collect(), dyadic: false };
+	let t1 = run_scenario(&sc1, 20000);
+	s.eval_only("monitor_boundary_targets");
+	if !t1.complete || t1.views.len() != nchunks {
+		s.fail(scenario_term(&sc1, false), "history did not complete".into(), None);
+		return;
+	}
+	let v1: Vec<View> = t1.views.iter().map(|x| x.2).collect();
+	// candidate targets, the ones on a whole-tick edge first
+	let mut edge: Vec<(u64, f64)> = vec![];
+	let mut near: Vec<(u64, f64)> = vec![];
+	for k in 1..v1.len() {
+		let (v, p) = (v1[k], v1[k - 1]);
+		if !v.ticking || (v.ticks, v.fr.to_bits()) == (p.ticks, p.fr.to_bits()) {
+			continue;
+		}
+		if v.fr > 1.0 - 1e-9 {
+			edge.push((v.ticks + 1, 0.0)); // the clock is a hair short of this tick after buffer k
+		}
+		if v.fr < 1e-9 {
+			edge.push((v.ticks, 0.0)); // ... or has just passed it
+		}
+		near.push((v.ticks, v.fr));
+		if v.fr.next_up() < 1.0 {
+			near.push((v.ticks, v.fr.next_up()));
+		}
+		if v.fr > 0.0 {
+			near.push((v.ticks, v.fr.next_down()));
+		}
+		if r.chance(1, 6) {
+			near.push((v.ticks + 1, 0.0));
+		}
+	}
+	let mut targets: Vec<(u64, f64)> = vec![];
+	while targets.len() < 6 && !(edge.is_empty() && near.is_empty()) {
+		let from_edge = !edge.is_empty() && (near.is_empty() || r.chance(2, 3));
+		let l = if from_edge { &mut edge } else { &mut near };
+		let x = l.swap_remove(r.below(l.len() as u64) as usize);
+		if !targets.contains(&x) {
+			targets.push(x);
+		}
+	}
+	if targets.is_empty() {
+		return;
+	}
+	let mut waits = vec![];
+	let analog = r.below(3); // 0: none, 1: a tween, 2: a resume
+	for (j, (ticks, fr)) in targets.iter().enumerate() {
+		let kind = if j == 0 && analog > 0 { analog as u8 } else { 0 };
+		waits.push(Op::Wait(kind, St::Clk { clock: 0, ticks: *ticks, fr: *fr }));
+	}
+	let sc = Scenario { sr, buf, ops: head.iter().chain(waits.iter()).chain(tail.iter()).copied().collect(), dyadic: false };
+	let t = run_scenario(&sc, 20000);
+	let desc = scenario_term(&sc, false);
+	if to_model {
+		s.case("history_boundary_target_f64", desc.clone(), &t.obs64, Some(key_of(&desc)));
+	}
+	if !t.complete {
+		s.fail(desc, "history did not complete".into(), None);
+		return;
+	}
+	let views: Vec<View> = t.views.iter().map(|x| x.2).collect();
+	if views != v1 {
+		s.fail(desc.clone(), "the times a clock shows depend on what is waiting for it".into(), None);
+	}
+	for (ticks, fr) in &targets {
+		if views.iter().any(|v| v.ticks + 1 == *ticks && v.fr > 1.0 - 1e-9 && *fr == 0.0) {
+			s.count("target_is_the_tick_the_clock_is_a_hair_short_of");
+		}
+		if views.iter().any(|v| v.ticks == *ticks && v.fr < *fr && v.fr.next_up() == *fr) {
+			s.count("target_one_ulp_above_a_time_the_clock_shows");
+		}
+	}
+	check_events(s, &desc, &t, &views, 0, 0, None, nchunks);
+}
+
+/// The user's thread creates a clock and schedules things on it WHILE the audio thread is in the middle of
+/// `Renderer::on_start_processing` (at each of the four reachable points, see `Op::Mid`).  The clock was created
+/// before anything that refers to it, so whatever the point: nothing that waits for it may be cancelled while it
+/// exists, and everything begins in the buffer during which the clock reaches the time (`check_events`).
+fn monitor_mid_callback(s: &mut Session, r: &mut Rng, to_model: bool) {
+	let dyadic = r.chance(1, 2);
+	let (sr, buf) = if dyadic { (*r.pick(&[512u32, 1024]), *r.pick(&[16usize, 64])) } else { *r.pick(&[(48000u32, 480usize), (1000, 100), (44100, 441), (22050, 100)]) };
+	let per_buffer = if dyadic { (r.below(8) + 1) as f64 / 16.0 } else { *r.pick(&[0.1, 0.2, 0.25, 0.3, 0.5]) };
+	let sp = Spd { kind: 1, x: per_buffer * sr as f64 / buf as f64 };
+	let point = r.below(4) as u8;
+	let idle = r.below(3) as usize;
+	let mut ops = vec![];
+	for _ in 0..idle {
+		ops.push(Op::StartProc);
+		ops.push(Op::Process(buf));
+	}
+	let mut block = vec![Op::AddClock(sp)];
+	let started = r.chance(5, 6);
+	if started {
+		block.push(Op::Start(0));
+	}
+	let nw = r.range(1, 3);
+	let mut analog = false;
+	for _ in 0..nw {
+		let st = if r.chance(1, 4) { St::Clk { clock: 0, ticks: 0, fr: 0.0 } } else { gen_clock_time(r, 1, dyadic) };
+		let kind = match r.below(4) {
+			0 if !analog => {
+				analog = true;
+				1
+			}
+			1 if !analog => {
+				analog = true;
+				2
+			}
+			_ => 0,
+		};
+		block.push(Op::Wait(kind, st));
+	}
+	if !started && r.chance(1, 2) {
+		block.push(Op::Start(0)); // started after the things that wait for it were scheduled
+	}
+	ops.push(Op::Mid { point, n: block.len() });
+	ops.extend(block);
+	let nchunks = r.range(8, 40) as usize;
+	let drop_at = if r.chance(1, 4) { Some(r.range(3, nchunks as i64 - 1) as usize) } else { None };
+	for k in 0..nchunks {
+		if drop_at == Some(k) {
+			ops.push(Op::Drop(0));
+		}
+		ops.push(Op::StartProc);
+		ops.push(Op::Process(buf));
+		ops.push(Op::StartProc);
+		if drop_at.map_or(true, |d| k < d) {
+			ops.push(Op::Obs(0));
+		}
+	}
+	let sc = Scenario { sr, buf, ops, dyadic };
+	let t = run_scenario(&sc, 20000);
+	s.eval_only("monitor_mid_callback");
+	let desc = scenario_text(&sc);
+	if to_model {
+		let term = scenario_term(&sc, false);
+		s.case("history_mid_callback_f64", term.clone(), &t.obs64, Some(key_of(&term)));
+	}
+	if !t.complete {
+		s.fail(desc, "history did not complete (panic or hang in a callback, or the mid-callback block did not run)".into(), None);
+		return;
+	}
+	let views: Vec<View> = t.views.iter().map(|x| x.2).collect();
+	// what was given to the main track after it had picked up its new sounds is picked up by the next callback
+	let pick = if point == 3 { 1 } else { 0 };
+	check_events(s, &desc, &t, &views, idle, pick, drop_at, nchunks);
 }
 
 /// F17: a speed tween scheduled on the clock's own time never starts; the same tween scheduled on
@@ -1141,7 +1557,7 @@ pub fn run(args: &Args) {
 		"From Coq Require Import ZArith List. Import ListNotations. Open Scope Z_scope.\nFrom KV Require Import Base.Corr C05.Run.",
 		"run",
 		40,
-		"one case = one history on a real AudioManager: clocks added / started / paused / stopped / retimed (speed tweens with immediate, delayed and clock start times) / dropped, sounds, volume tweens and resumes waiting for clock times, callbacks of arbitrary frame counts over arbitrary internal buffer sizes; observables = ClockHandle::time()/ticking() at every observation point, begin frame / cancellation of every waiter; distinct = distinct history text; non-trivial = at least one clock ticks through a callback",
+		"one case = one history on a real AudioManager: clocks added / started / paused / stopped / retimed (speed tweens with immediate, delayed and clock start times) / dropped, sounds, volume tweens and resumes waiting for clock times, callbacks of arbitrary frame counts over arbitrary internal buffer sizes, user-side calls made between callbacks or (history_mid_callback) in the middle of on_start_processing at each reachable point, targets on / one ulp around the times the clock shows and on ticks the clock is a rounding error short of (history_boundary_target); observables = ClockHandle::time()/ticking() at every observation point, begin frame / cancellation of every waiter; distinct = distinct history text; non-trivial = at least one clock ticks through a callback",
 	);
 	if std::env::var("C05_EXPERIMENT").is_ok() {
 		experiment();
@@ -1152,16 +1568,34 @@ pub fn run(args: &Args) {
 	for i in 0..n {
 		let dyadic = i % 2 == 0;
 		let events = i % 3 != 2;
-		let sc = gen_scenario(&mut rng, dyadic, events);
+		let sc = gen_scenario(&mut rng, dyadic, events, false);
 		let t = run_scenario(&sc, 20000);
 		let term = scenario_term(&sc, false);
 		s.case(if dyadic { "history_dyadic_f64" } else { "history_arbitrary_f64" }, term.clone(), &t.obs64, Some(key_of(&term)));
-		if dyadic {
+		// The exact-rational twin asserts that binary64 made NO rounding on this history.  The dyadic generator's
+		// mantissa budget covers up to two tweened speed changes per history (a third one retargets from a mid-tween
+		// value whose mantissa has already grown: found with VERIF_SEED=2 after the seed hash, 59 bits needed);
+		// longer histories are compared with the binary64 model only.
+		let tweened = sc.ops.iter().filter(|o| matches!(o, Op::SetSpeed { dur_ns, .. } if *dur_ns > 0)).count();
+		if dyadic && tweened <= 2 {
 			let termq = scenario_term(&sc, true);
 			s.case("history_dyadic_Q", termq, &t.obsq, None);
 		}
 		if !t.complete {
 			s.fail(term, "history did not complete (panic or hang in a callback)".into(), None);
+		}
+	}
+
+	// ---- the same histories with the user's calls made while the audio thread is in the middle of
+	// on_start_processing: indistinguishable from the sequential history `linearise` gives to the model
+	for i in 0..(n / 8).max(20) {
+		let dyadic = i % 2 == 0;
+		let sc = gen_scenario(&mut rng, dyadic, true, true);
+		let t = run_scenario(&sc, 20000);
+		let term = scenario_term(&sc, false);
+		s.case("history_mid_callback_f64", term.clone(), &t.obs64, Some(key_of(&term)));
+		if !t.complete {
+			s.fail(scenario_text(&sc), "history did not complete (panic or hang in a callback, or the mid-callback block did not run)".into(), None);
 		}
 	}
 
@@ -1205,6 +1639,13 @@ pub fn run(args: &Args) {
 	}
 	for _ in 0..(n / 50).max(3) {
 		monitor_self_reference(&mut s, &mut rng);
+	}
+	boundary_corpus(&mut s);
+	for i in 0..(n / 3).max(60) {
+		monitor_boundary_targets(&mut s, &mut rng, i % 4 == 0);
+	}
+	for i in 0..(n / 3).max(60) {
+		monitor_mid_callback(&mut s, &mut rng, i % 4 == 0);
 	}
 	schedule_cases(&mut s, &mut rng, args.thorough);
 	// last: if F7 is back each of these leaves a spinning thread behind
